@@ -968,7 +968,18 @@ fn codegen_router(ops: &Operations, rust_types: &RustTypes) {
                                 (true, false) => {
                                     let tag = route.query_tag.as_deref().unwrap();
 
-                                    g!("if qs.has(\"{tag}\") {{");
+                                    // Several operations may share a tag (e.g. `GetBucketAnalyticsConfiguration`
+                                    // and `ListBucketAnalyticsConfigurations`): they are told apart
+                                    // by their required query strings.
+                                    let is_shared_tag = group.iter().filter(|r| r.query_tag == route.query_tag).count() > 1;
+                                    let mut cond = f!("qs.has(\"{tag}\")");
+                                    if is_shared_tag {
+                                        for q in &route.required_query_strings {
+                                            write!(cond, " && qs.has(\"{q}\")").unwrap();
+                                        }
+                                    }
+
+                                    g!("if {cond} {{");
                                     succ(route, true);
                                     g!("}}");
                                 }
